@@ -341,8 +341,9 @@ fn emit_binary_history(sink: &mut Sink, r: &mut Rng, scratch: &str, bin: &str, s
         }
         let before = p.history();
         let whole = p.summary(now);
-        let op = r.below(8);
+        let op = r.below(9);
         let (label, force, dry, restricted): (&str, bool, bool, bool) = match op {
+            8 => ("check-auto-ff", false, false, false),
             0 | 1 => ("snapshot", false, false, false),
             2 => ("snapshot-force", true, false, false),
             3 => ("snapshot-dry", false, true, false),
@@ -356,6 +357,8 @@ fn emit_binary_history(sink: &mut Sink, r: &mut Rng, scratch: &str, bin: &str, s
             "snapshot-force" => vec!["snapshot", "--force", "--no-sloc-cache"],
             "snapshot-dry" => vec!["snapshot", "--dry-run", "--no-sloc-cache"],
             "check-auto" => vec!["check", "--no-sloc-cache"],
+            // every file is over the limit, --warn-only keeps the run passing, fail-fast may stop it early
+            "check-auto-ff" => vec!["check", "--no-sloc-cache", "--warn-only", "--fail-fast", "--max-lines", "0", "--format", "json"],
             "check-files" => vec!["check", "--no-sloc-cache", "--files", "src/c.rs"],
             "stats" => vec!["stats", "trend", "--no-sloc-cache"],
             _ => vec!["check", "--no-sloc-cache", "--no-config"],
@@ -364,6 +367,10 @@ fn emit_binary_history(sink: &mut Sink, r: &mut Rng, scratch: &str, bin: &str, s
         // the tool's own claim: snapshot says when it skips, check says when it records
         let claims_recorded = if label.starts_with("snapshot") { !out.contains("Snapshot skipped") && !dry } else { err.contains("Auto-snapshot recorded") };
         let after = p.history();
+        // a run that fail-fast stopped before the last file has partial totals, like --files
+        let stopped_early = label == "check-auto-ff"
+            && serde_json::from_str::<serde_json::Value>(&out).ok().and_then(|v| v["summary"]["total_files"].as_u64()).is_some_and(|n| whole.is_some_and(|w| (n as usize) < (w.files as usize).saturating_sub(usize::from(content_exclude))));
+        let label = if stopped_early { "check-auto-ff-stopped" } else if label == "check-auto-ff" { "check-auto" } else { label };
         let writes = matches!(label, "snapshot" | "snapshot-force" | "check-auto");
         // what the model is told: recorded totals are taken from the entry actually appended (if
         // any), the decision and the retained list are predicted
@@ -375,7 +382,7 @@ fn emit_binary_history(sink: &mut Sink, r: &mut Rng, scratch: &str, bin: &str, s
             pred = Some(format!("{label} panicked"));
         }
         if !writes && after != before {
-            pred = Some(format!("read-only command {label} modified the history"));
+            pred = Some(if stopped_early { "a check that fail-fast stopped early recorded its partial totals as an auto-snapshot".to_string() } else { format!("read-only command {label} modified the history") });
         }
         if writes {
             if let (Some(rec), Some(w)) = (appended, whole) {
